@@ -78,7 +78,7 @@ func drawSpec(t *sim.Tape, kind, metaName string, invalidOK bool) Spec {
 			s.MetaKinds = []string{kind, kind}
 			valid = false
 		case 3:
-			bad := map[string][]string{"Provider": {"Composition", "ConfigMap", "XRD"}, "Configuration": {"CRD", "ConfigMap"}, "Function": {"Composition", "ConfigMap", "XRD"}}[kind]
+			bad := map[string][]string{"Provider": {"Composition", "ConfigMap", "XRD"}, "Configuration": {"CRD", "ConfigMap", "ValidatingWebhookConfiguration"}, "Function": {"Composition", "ConfigMap", "XRD", "ValidatingWebhookConfiguration"}}[kind]
 			s.Objects = append(s.Objects, Obj{Kind: bad[t.Next(len(bad))], Name: "zeta"})
 			valid = false
 		case 4:
@@ -92,8 +92,11 @@ func drawSpec(t *sim.Tape, kind, metaName string, invalidOK bool) Spec {
 			s.Form = "plain"
 		}
 	}
+	if invalidOK && s.Form != "multi" && len(s.MetaKinds) > 0 && t.Next(6) == 0 {
+		s.Nested = true
+	}
 	// valid, annotated packages usually go through the repo's own builder
-	if valid && s.Form == "annotated" && t.Next(4) > 0 {
+	if valid && s.Form == "annotated" && !s.Nested && t.Next(4) > 0 {
 		s.Built = true
 	}
 	// now and then a large package: its cache entry is written in several chunks
